@@ -19,14 +19,14 @@ CHECKS = {
         level_text=("Differential against independently written FNV-1a/CRC-32/murmur2 partitioners: every 0..2-byte key x partition counts "
                     "enumerated, longer keys generated; model-based sequences for RoundRobin and LeastBytes, incl. concurrent callers. Hash / ReferenceHash with a user-supplied Hasher: values chosen directly at the sign boundaries, and stateful hashers (crc32, fnv) over call sequences; one shared hashing balancer used by 2-16 goroutines at once (also in a race-detector build), every answer compared with the reference; LeastBytes and RoundRobin in spin-barrier rounds (N simultaneous calls pick what some sequential order of them picks: N distinct partitions from a balanced LeastBytes state, the fixed multiset of the round for RoundRobin) and with per-partition totals beyond 2^32 bytes. "
                     "Exploration is the right level: the domain is unbounded, but the hash functions have no key-length-specific branches beyond length mod 4."),
-        level_note="trusts the reference formulas (DESIGN.md A.4) and that Writer offers partitions 0..n-1",
+        level_note="trusts the reference formulas (DESIGN.md A.4); that a Writer offers partitions 0..n-1 is checked through real Writers (TestWriterOffers)",
         rule=("cases = (balancer, key, partition count) triples, RoundRobin call sequences and LeastBytes size sequences; "
               "enumerated: nil, empty and every 1- and 2-byte key x partition counts (all 1..64 in thorough) x 6 hashing balancers; "
               "generated: rapid keys of every length mod 4, high-bit bytes, up to 1 KiB, counts up to 100000; Hash / ReferenceHash with a user-supplied Hasher whose value is chosen directly (sign boundaries 0x7fffffff / 0x80000000 / 0xffffffff enumerated x every count up to 64, random values). "
               "Non-trivial = the reference client hashes the key deterministically (not a 'any partition' rule), or a "
               "RoundRobin/LeastBytes sequence with >1 partition and >1 call; distinct by (balancer,key,n) or by the case value."),
         assumptions=["reference FNV-1a/CRC-32/murmur2 and partitioner formulas are written from the Sarama, librdkafka and Java client definitions",
-                     "partition lists are 0..n-1 as Writer supplies them"],
+                     "partition lists are 0..n-1 as Writer supplies them (checked by TestWriterOffers for topics of up to 400 partitions, in histories that make the Writer's cached list grow)"],
         units=[
             dict(run="TestSmallKeysExhaustive", checks=None, timeout=1200),
             dict(run="TestRandomKeys", checks_quick=20000, checks_thorough=400000, shards_thorough=4),
@@ -37,6 +37,7 @@ CHECKS = {
             dict(run="TestConcurrentHash", build="race", checks_quick=40, checks_thorough=600),
             dict(run="TestRoundRobin", checks_quick=3000, checks_thorough=60000, shards_thorough=2),
             dict(run="TestLeastBytes", checks_quick=3000, checks_thorough=60000, shards_thorough=2),
+            dict(run="TestWriterOffers", checks_quick=40, checks_thorough=600),
         ],
         exhaustive_thorough=False,
     ),
